@@ -648,6 +648,10 @@ Proof.
   apply wr_loop_no_panic; [assumption|lia].
 Qed.
 
+(** every Validate() method that traverseGo reaches from a modelled kind is one of the hand-modelled ones *)
+Lemma validators_modelled : validators_covered ("Pipeline" :: cv_leaf) = true.
+Proof. vm_compute. reflexivity. Qed.
+
 (** ** refutations: with a single defect flag on, validation accepts a document that panics *)
 Definition refutes (i : N) (c : spec_case) : Prop :=
   let q := only i in
